@@ -35,7 +35,13 @@ func evalStream(r *Report, d *Driver, stream, src string, o RunOpts, parts []str
 		return &c
 	}
 	if c.Real.Class == "parse-gopanic" {
-		r.Violation(Case{Stream: stream, Input: src, Real: c.RealObs, Spec: "the parser does not crash"})
+		// a parser crash is a C03 matter (parsing is total); for the other properties the program
+		// was not accepted, so it is outside their quantifier
+		if r.Property == "C03" || r.Property == "C04" || r.Property == "C05" {
+			r.Violation(Case{Stream: stream, Input: src, Real: c.RealObs, Spec: "the parser does not crash"})
+		} else {
+			r.Hist("skipped", "parse-gopanic")
+		}
 		return &c
 	}
 	real, model := c.Obs(parts...)
@@ -100,6 +106,9 @@ func genXT(rng *rand.Rand, ty string, d int) *xt {
 		case "num":
 			if rng.Intn(3) == 0 {
 				return &xt{kind: "var", text: []string{"n1", "n2"}[rng.Intn(2)], ty: ty}
+			}
+			if rng.Intn(4) == 0 {
+				return &xt{kind: "idx", text: []string{"a1[0]", "a1[1]", "a1[-1]", "m1.k", "m1[\"k\"]", "a1[n1 - 3]"}[rng.Intn(6)], ty: ty}
 			}
 			v := []string{"0", "1", "2", "3", "7", "0.5", "10", "2.25", "100", "9007199254740993", "0.1"}[rng.Intn(11)]
 			return &xt{kind: "lit", text: v, ty: ty}
@@ -166,6 +175,8 @@ func (e *xt) render(rng *rand.Rand, parentPrec int, right bool, tight bool) (str
 		return e.text, litWire(e.text, e.ty)
 	case "var":
 		return e.text, "(V " + ss(e.text) + ")"
+	case "idx":
+		return e.text, idxWire(e.text)
 	case "grp":
 		s, w := e.l.render(rng, 0, false, false)
 		return "(" + s + ")", "(GRP " + w + ")"
@@ -205,6 +216,22 @@ func (e *xt) render(rng *rand.Rand, parentPrec int, right bool, tight bool) (str
 	return s, w
 }
 
+func idxWire(text string) string {
+	switch text {
+	case "a1[0]":
+		return "(IDX (V " + ss("a1") + ") (N n" + FHex(0) + "))"
+	case "a1[1]":
+		return "(IDX (V " + ss("a1") + ") (N n" + FHex(1) + "))"
+	case "a1[-1]":
+		return "(IDX (V " + ss("a1") + ") (UN - (N n" + FHex(1) + ")))"
+	case "m1.k":
+		return "(DOT (V " + ss("m1") + ") " + ss("k") + ")"
+	case "m1[\"k\"]":
+		return "(IDX (V " + ss("m1") + ") (S " + ss("k") + "))"
+	}
+	return "(IDX (V " + ss("a1") + ") (BIN - (V " + ss("n1") + ") (N n" + FHex(3) + ")))"
+}
+
 func litWire(text, ty string) string {
 	switch ty {
 	case "num":
@@ -233,8 +260,8 @@ func litWire(text, ty string) string {
 	return "(ARR " + strings.Join(el, " ") + ")"
 }
 
-const c01Prelude = "n1 := 3\nn2 := 0.5\nb1 := true\nb2 := false\ns1 := \"abc\"\na1 := [4 5]\n"
-const c01Uses = "print n1 n2 b1 b2 s1 a1\n"
+const c01Prelude = "n1 := 3\nn2 := 0.5\nb1 := true\nb2 := false\ns1 := \"abc\"\na1 := [4 5]\nm1 := {k:6}\n"
+const c01Uses = "print n1 n2 b1 b2 s1 a1 m1\n"
 
 // RunC01 : expression grouping (parser tree vs the specification's precedence/associativity),
 // expression values and evaluation order.
@@ -254,8 +281,18 @@ func RunC01(d *Driver) *Report {
 		var src, want string
 		es, ew := e.render(rng, 0, false, tight)
 		if tight {
-			// whitespace sensitive position: an argument of print next to other arguments
-			src = c01Prelude + "print 1 " + es + " 2\n" + c01Uses
+			// whitespace sensitive position: an argument of print / an array element next to other
+			// elements, the following one starting with a unary minus
+			switch rng.Intn(4) {
+			case 0:
+				src = c01Prelude + "print 1 " + es + " 2\n" + c01Uses
+			case 1:
+				src = c01Prelude + "print " + es + " -n1 -1\n" + c01Uses
+			case 2:
+				src = c01Prelude + "print (len [" + es + " -n1 -1 7]) [" + es + " -n1]\n" + c01Uses
+			default:
+				src = c01Prelude + "print " + es + " [1] (-n2) " + es + "\n" + c01Uses
+			}
 		} else {
 			src = c01Prelude + "x := " + es + "\nprint x\n" + c01Uses
 		}
@@ -317,6 +354,14 @@ func c01OrderPrograms() []string {
 	add("print (n \"1\" 1) (t \"2\") (b \"3\" true)\n")
 	add("for i := range (n \"start\" 0) (n \"stop\" 2) (n \"step\" 1)\n    print i\nend\n")
 	add("x := (n \"1\" 1) == (n \"2\" 1) and (b \"3\" false) or (n \"4\" 2) < (n \"5\" 3)\nprint x\n")
+	// deep equality, also through any
+	vals := []string{"1", "\"a\"", "true", "[1 2]", "[1 3]", "[]", "[[1] [2]]", "{a:1}", "{a:1 b:2}", "{b:2 a:1}", "{}", "[1 \"a\"]", "[[1] \"a\"]", "{a:[1] b:2}", "[{a:1}]"}
+	for _, v := range vals {
+		for _, w := range vals {
+			add("x:any\ny:any\nx = " + v + "\ny = " + w + "\nprint (x == y) (x != y) (typeof x) (typeof y)\n")
+		}
+		add("p := " + v + "\nq := " + v + "\nprint (p == q) (p != q) (p == " + v + ")\nprint ([p] == [q]) ({k:p} == {k:q})\n")
+	}
 	return out
 }
 
@@ -353,6 +398,9 @@ func RunC02(d *Driver) *Report {
 	}
 	for _, src := range c02Fixed() {
 		evalStream(r, d, "fixed", src, RunOpts{}, parts, true, oracle)
+	}
+	for _, src := range TypeMatrixPrograms() {
+		evalStream(r, d, "typematrix", src, RunOpts{}, parts, true, oracle)
 	}
 	for _, w := range Corpus("C02") {
 		evalStream(r, d, "corpus:"+w.Name, w.Src, RunOpts{}, parts, true, oracle)
@@ -479,6 +527,30 @@ func sweepTuples(rng *rand.Rand, name string, ptypes []string, hasRet bool, thor
 			src = call + "\nprint \"done\" err errmsg\n"
 		}
 		out = append(out, src)
+	}
+	return out
+}
+
+// TypeMatrixPrograms: every binary operator applied to every pair of value descriptions (variables of
+// each type, constant and empty literals, nested empties); most are rejected by the parser, the
+// accepted ones must run without going wrong.
+func TypeMatrixPrograms() []string {
+	descs := []string{"n", "s", "b", "an", "as", "aa", "mn", "ma", "y", "[]", "{}", "[1]", "[\"a\"]", "{a:1}", "[[]]", "[{}]", "{a:[]}", "{a:{}}", "[[1]]", "[1 \"a\"]", "1", "\"a\"", "true"}
+	ops := []string{"+", "-", "*", "/", "%", "<", "<=", "==", "!=", "and", "or"}
+	pre := "n := 1\ns := \"s\"\nb := true\nan := [1 2]\nas := [\"a\"]\naa:[]any\nmn := {a:1}\nma:{}any\ny:any\n"
+	use := "print n s b an as aa mn ma y\n"
+	var out []string
+	for _, l := range descs {
+		for _, r := range descs {
+			for _, op := range ops {
+				out = append(out, pre+"x := "+l+" "+op+" "+r+"\nprint x (typeof x)\n"+use)
+			}
+		}
+		out = append(out, pre+"x := -"+l+"\nprint x\n"+use, pre+"x := !"+l+"\nprint x\n"+use,
+			pre+"x := "+l+"[0]\nprint x\n"+use, pre+"x := "+l+"[\"a\"]\nprint x\n"+use, pre+"x := "+l+"[0:1]\nprint x\n"+use,
+			pre+"x := "+l+".a\nprint x\n"+use, pre+"x := "+l+".(num)\nprint x\n"+use, pre+"x := "+l+".([]num)\nprint x\n"+use,
+			pre+"if "+l+"\n    print 1\nend\n"+use, pre+"for e := range "+l+"\n    print e (typeof e)\nend\n"+use,
+			pre+"x := "+l+"\nprint x (typeof x)\n"+use)
 	}
 	return out
 }
